@@ -985,7 +985,13 @@ def corr_state_machine(chk, cfg, examples):
         def validate_response(self, response, case, additional_checks=None, **kwargs):
             pass
 
-    if shim_needed:
+    from schemathesis.generation.stateful.state_machine import APIStateMachine
+    if shim_needed and "_add_results_to_targets" not in APIStateMachine.__dict__:
+        chk.violation("C10:APIStateMachine:links-never-followed-on-current-Hypothesis",
+                      "the installed Hypothesis calls _add_results_to_targets, which the state machine does not override: no "
+                      "step result reaches a bundle, so no link is ever followed in the stateful phase",
+                      {"kind": "state-machine", "hypothesis_has_old_name": False})
+    if shim_needed and "_add_results_to_targets" not in APIStateMachine.__dict__:
         # Hypothesis >= 6.1xx renamed `_add_result_to_targets` to `_add_results_to_targets(targets, results)`; the
         # snapshot overrides the old name only, so without this adapter no response ever reaches a link bundle.
         def _add_results_to_targets(self, targets, results):
